@@ -224,7 +224,7 @@ class Ctx:
         if signature in self._seen_sig:
             return True
         self._seen_sig.add(signature)
-        rdir = os.path.join(VERIF, "out", "replays", self.pid)
+        rdir = os.path.join(os.environ.get("VERIF_OUT_DIR", os.path.join(VERIF, "out")), "replays", self.pid)
         os.makedirs(rdir, exist_ok=True)
         h = hashlib.sha1(signature.encode()).hexdigest()[:12]
         path = os.path.join(rdir, h + ".json")
@@ -238,8 +238,10 @@ class Ctx:
         for k, f in [(f["signature"], f) for f in self.findings if f.get("property") == self.pid and f.get("status") == "known"]:
             if k in self.known_hits:
                 out("KNOWN-FINDING: property=%s %s [%s] (x%d)" % (self.pid, f.get("what", ""), k, self.known_hits[k]))
-        for d in self.drift[:20]:
-            out("MODEL-DRIFT: property=%s %s" % (self.pid, d))
+        for d in self.drift[:5]:
+            out("MODEL-DRIFT: property=%s %s" % (self.pid, d[:300]))
+        if len(self.drift) > 5:
+            out("MODEL-DRIFT: property=%s ... %d more" % (self.pid, len(self.drift) - 5))
         for sig, what, path in self.violations:
             out("VIOLATION property=%s replay=%s" % (self.pid, path))
             out("  signature: %s" % sig)
@@ -267,8 +269,9 @@ class Ctx:
             "violations": len(self.violations),
         }
         if not self.is_replay:
-            os.makedirs(os.path.join(VERIF, "evidence"), exist_ok=True)
-            with open(os.path.join(VERIF, "evidence", self.pid + ".json"), "w") as fh:
+            evd = os.environ.get("VERIF_EVIDENCE_DIR", os.path.join(VERIF, "evidence"))
+            os.makedirs(evd, exist_ok=True)
+            with open(os.path.join(evd, self.pid + ".json"), "w") as fh:
                 json.dump(ev, fh, indent=1, sort_keys=True)
         out("%s tier=%s seed=%s: evaluations=%d distinct_nontrivial=%d states=%s traces=%d known=%d violations=%d wall=%.1fs" % (
             self.pid, self.tier, self.seed, cov.get("evaluations", 0), cov.get("distinct_nontrivial", 0),
